@@ -35,6 +35,7 @@ CheckReflect(d, e) ==
 
 Check(d, e) == CASE e.op = "defs.q" -> CheckQuery(d, e)
                  [] e.op = "defs.reflect" -> CheckReflect(d, e)
+                 [] e.op = "defs.panic" -> Need(FALSE, "C13", <<"namespace query panicked", e.what, e.msg>>)
                  [] e.op = "defs.load" -> Need(Acyclic(DbOf(e.rows)), "SPEC", <<"harness produced a cyclic taxonomy">>)
                  [] OTHER -> <<<<"SPEC", <<"unknown op", e.op>>>>>>
 
